@@ -123,11 +123,49 @@ fn rt_boundaries(out: &mut Out, n: &mut usize, big: bool) {
     }
 }
 
+/// documents of S3 in which a known-size master at depth `level` (0 = A, 1 = B, 2 = C) has a body of exactly `target` bytes and is
+/// directly followed by the global element G - the one neighbour that shows whether the master's size field still says
+/// "known size" (a size field of all ones would make G part of the master)
+fn body_boundary_doc(level: usize, target: usize) -> Option<Vec<Node>> {
+    let bin = |len: usize| Node::leaf(0x88, Val::B((0..len).map(|i| (i * 5 + 3) as u8).collect()));
+    let g = || Node::leaf(0xec, Val::B(vec![7]));
+    let field = |l: usize| { let l = l as u64; let mut w = gen::min_width(l); if l == (1u64 << (7 * w)) - 1 { w += 1; } w };
+    // innermost: C{X(p)} with 1 + field(p) + p = body of C
+    let x_for = |body: usize| -> Option<usize> { (0..=body).rev().find(|p| 1 + field(*p) + *p == body) };
+    match level {
+        2 => { let p = x_for(target)?; Some(vec![Node::master(0x81, vec![Node::master(0x82, vec![Node::master(0x83, vec![bin(p)]), g()])])]) }
+        1 => { // B{C{X(p)}}: body of B = 1 + field(cbody) + cbody
+            let cbody = (0..=target).rev().find(|c| 1 + field(*c) + *c == target)?; let p = x_for(cbody)?;
+            Some(vec![Node::master(0x81, vec![Node::master(0x82, vec![Node::master(0x83, vec![bin(p)])]), g()])]) }
+        _ => { let bbody = (0..=target).rev().find(|c| 1 + field(*c) + *c == target)?; let cbody = (0..=bbody).rev().find(|c| 1 + field(*c) + *c == bbody)?; let p = x_for(cbody)?;
+            Some(vec![Node::master(0x81, vec![Node::master(0x82, vec![Node::master(0x83, vec![bin(p)])])]), g()]) }
+    }
+}
+fn rt_master_bodies(out: &mut Out, n: &mut usize, big: bool) {
+    let s = gen::s3();
+    for &target in &[126usize, 127, 128, 16382, 16383, 16384] {
+        if target > 1000 && !big { continue; }
+        for level in 0..3 {
+            let doc = match body_boundary_doc(level, target) { Some(d) => d, None => continue };
+            for shape in 0..2 {
+                let none = |_: &[usize]| false; let all = |p: &[usize]| p.len() >= 1 + (level.min(1));
+                let mut ops = if shape == 1 { ops_of(&doc, &all, false) } else { ops_of(&doc, &none, false) };
+                ops.push(WOp::Flush);
+                begin(out, n, &s, "rt", json!({"expect": expect_json(&doc), "raws": false, "boundary": target as i64, "master_body": true}));
+                let (dest, _) = run_writer(out, "w", &ops, vec![]);
+                readback(out, "r", &dest, false);
+                out.ev(json!({"ev":"end"}));
+            }
+        }
+    }
+}
+
 /// C01: write a conformant tree under a random presentation and options, read it back strictly
 pub fn rt(out: &mut Out, rng: &mut Rng, count: usize, big: bool, big_boundaries: bool) {
     let mut n = 0usize;
     dynspec::install(gen::s3());
     rt_boundaries(out, &mut n, big_boundaries);
+    rt_master_bodies(out, &mut n, big_boundaries);
     for i in 0..count {
         let s = pick_schema(rng, i);
         let o = DocOpts { max_tags: 24, big: big && i % 10 == 0, ..Default::default() };
@@ -269,20 +307,22 @@ pub fn widths(out: &mut Out, rng: &mut Rng, count: usize) {
         let chain: Vec<u64> = e.path.iter().map(|p| match p { ebml_iterable::specs::PathPart::Id(id) => *id, _ => 0 }).collect();
         let (len, w) = *rng.pick(&[(126usize, 1usize), (127, 1), (128, 1), (127, 2), (5, 1), (16382, 2), (16383, 2), (16384, 2), (16383, 3), (127, 8), (0, 1)]);
         let mk = |rng: &mut Rng| if e.ty == TagDataType::Binary { DynTag { id: e.id, v: DynVal::B(rng.bytes(len)) } } else { DynTag { id: e.id, v: DynVal::S("w".repeat(len)) } };
-        let leaf = mk(rng);
+        // every third case: an element whose id is outside the specification (raw tag) - a requested width binds it as well
+        let raw = i % 3 == 2;
+        let leaf = if raw { let mut used = s.ids(); used.push(0xbf); used.push(0xec); DynTag { id: gen::rand_id(rng, &mut used, false), v: DynVal::Raw(rng.bytes(len)) } } else { mk(rng) };
         let build = |width: usize| -> Vec<WOp> {
             let mut ops: Vec<WOp> = chain.iter().map(|id| t(start(*id))).collect();
             ops.push(WOp::Tag { tag: leaf.clone(), width, unknown: false });
             for id in chain.iter().rev() { ops.push(t(end(*id))); }
             ops.push(WOp::Flush); ops
         };
-        begin(out, &mut n, &s, "width_exact", json!({}));
+        begin(out, &mut n, &s, "width_exact", json!({"raws": raw}));
         let (dest, _) = run_writer(out, "plain", &build(0), vec![]);
-        readback(out, "plain", &dest, false);
+        readback(out, "plain", &dest, raw);
         let mut ws: Vec<i64> = chain.iter().map(|_| 0).collect(); ws.push(w as i64);
         out.ev(json!({"ev":"note","widths": ws}));
         let (dest, _) = run_writer(out, "opt", &build(w), rand_sink(rng));
-        readback(out, "opt", &dest, false);
+        readback(out, "opt", &dest, raw);
         out.ev(json!({"ev":"end"}));
     }
 }
@@ -509,6 +549,16 @@ pub fn flush_open(out: &mut Out, rng: &mut Rng, count: usize) {
 /// C02: streams the strict reader accepts -> re-written -> read again
 pub fn fix(out: &mut Out, rng: &mut Rng, count: usize) {
     let mut n = 0usize;
+    // re-writing must not turn a master whose body has 2^(7k)-1 bytes into an unknown-size one
+    { let s = gen::s3();
+      for &target in &[126usize, 127, 128, 16383] { for level in 0..3 {
+        if let Some(doc) = body_boundary_doc(level, target) {
+            let bytes = gen::encode_doc(&doc);
+            begin(out, &mut n, &s, "fix", json!({"master_body": true}));
+            let (tags, clean) = readback(out, "r1", &bytes, false);
+            if clean && !tags.is_empty() { let mut ops: Vec<WOp> = tags.into_iter().map(t).collect(); ops.push(WOp::Flush); let (dest, _) = run_writer(out, "w", &ops, vec![]); readback(out, "r2", &dest, false); }
+            out.ev(json!({"ev":"end"}));
+        } } } }
     for i in 0..count {
         let s = pick_schema(rng, i);
         let o = DocOpts { max_tags: 20, widths: true, noncanon: true, ..Default::default() };
